@@ -143,7 +143,10 @@ func uniq(xs []string) []string {
 }
 
 var c03Keys = []string{"a", "b", "c", "dir/x"}
-var c03Patterns = []string{"*", "a*", "?", "dir/*", "[ab]"}
+
+// distinct strings that a path-like normalisation would merge
+var c03OddKeys = []string{"a", "a/", "./a", "dir/x", "dir//x", "dir/./x", ".", "a/.."}
+var c03Patterns = []string{"*", "a*", "?", "dir/*", "[ab]", "a", "b", "dir/x", "a/"}
 
 func genC03(g *gen, c *sim.Case, tier string) {
 	r := g.r
@@ -164,8 +167,12 @@ func genC03(g *gen, c *sim.Case, tier string) {
 	if tier == "thorough" && r.Chance(1, 4) {
 		n = 12 + r.Intn(20)
 	}
+	keys := c03Keys
+	if r.Chance(1, 4) {
+		keys = c03OddKeys
+	}
 	for i := 0; i < n; i++ {
-		task.Ops = append(task.Ops, g.seqOp(c03Keys, false))
+		task.Ops = append(task.Ops, g.seqOp(keys, false))
 	}
 	c.Tasks = []sim.Task{task}
 }
@@ -309,7 +316,8 @@ func genC06(g *gen, c *sim.Case, tier string) {
 		case 4:
 			task.Ops = append(task.Ops, sim.Op{K: "create", S: k, V: g.val(), D: int64(sim.Pick(r, 0, time.Hour, 50*time.Millisecond))})
 		case 5:
-			task.Ops = append(task.Ops, sim.Op{K: "list", S: sim.Pick(r, "*", "a*", "?")})
+			// including literal patterns (a plain key is a legal pattern)
+			task.Ops = append(task.Ops, sim.Op{K: "list", S: sim.Pick(r, "*", "a*", "?", "a", "b", "c", k)})
 		case 6:
 			// guarded by a 1 s simulated deadline
 			task.Ops = append(task.Ops, sim.Op{K: "wait", S: k, N: 0, E: 1000 + int64(time.Second)})
